@@ -130,6 +130,23 @@ def run(ck):
                                  dict(desc, row=row.tolist(), got=got[r].tolist(), expected=[float(e) for e in exp]),
                                  key=json.dumps(dict(site='formula', kernel=kern, trees=f'{len(model.trees)}/{n_trees}')))
 
+        # ---------- (ii-sq) a query batch with exactly as many rows as the leaf has centers (square kernel block, rows are NOT the centers) ----------
+        if task in ('reg', 'reg2') and len(model.trees) == 1 and model.trees[0]['type'] == 'leaf':
+            leaf = model.trees[0]
+            nc = int(leaf['model'].centers.shape[0])
+            Qn = xr.make_X('random', nc, d, rng)
+            with xr.quiet():
+                gn = np.asarray(model.predict(torch.tensor(Qn)), dtype=np.float64).reshape(nc, -1)
+            W = float(leaf['model'].weights.abs().sum())
+            for r in (0, nc // 2, nc - 1):
+                exp = [float(v) for v in orc.leaf_expansion(leaf['model'], Qn[r])]
+                err = max(abs(a - b) for a, b in zip(exp, gn[r]))
+                ck.case(dict(desc, kind='square-block', row=r), nontrivial=True); ck.count('square query block (rows = #centers)')
+                if not (err <= 2e-5 * (W + max(1.0, max(abs(v) for v in exp)))):
+                    ck.violation(f'predict on a batch of {nc} fresh rows (as many as the leaf has centers) gives {gn[r].tolist()} for row {r}, the kernel expansion gives {exp} on {desc}',
+                                 dict(desc, row=Qn[r].tolist(), got=gn[r].tolist(), expected=exp, rows=nc), key=json.dumps(dict(site='square-block', kernel=kern)))
+                    break
+
         # ---------- (ii') batch-size independence across every internal batching threshold (kernel 20k, leaf predict 50k) ----------
         if task in ('reg', 'reg2'):
             nearrow = [any(orc.exact_route(t, row, orc.assign_leaf_ids(t))[1] for t in model.trees) for row in qrows]
